@@ -289,7 +289,10 @@ CGEN_FUNCTIONS = ["constmap.c:hash:C_cm_hash", "cdb_hash.c:cdb_hash", "cdb_unpac
                   # -1 EINTR, <= -2 error; accepted bytes go to g_wr__out_): the whole output side of substdio
                   "substdo.c:allwrite", "substdo.c:substdio_flush", "substdo.c:substdio_bput", "substdo.c:substdio_put", "substdo.c:substdio_putflush",
                   "substdo.c:allwrite:K_allwrite:chk", "substdo.c:substdio_flush:K_substdio_flush:chk", "substdo.c:substdio_bput:K_substdio_bput:chk",
-                  "substdo.c:substdio_put:K_substdio_put:chk", "substdo.c:substdio_putflush:K_substdio_putflush:chk"]
+                  "substdo.c:substdio_put:K_substdio_put:chk", "substdo.c:substdio_putflush:K_substdio_putflush:chk",
+                  # the input side (option rd: the call through the function pointer is the scripted read oracle over g_rd__src_)
+                  "byte_cr.c:byte_copyr:K_byte_copyr:chk", "substdi.c:oneread::rd", "substdi.c:getthis", "substdi.c:substdio_feed::rd", "substdi.c:substdio_get::rd",
+                  "substdi.c:oneread:K_oneread:chk,rd", "substdi.c:getthis:K_getthis:chk", "substdi.c:substdio_feed:K_substdio_feed:chk,rd", "substdi.c:substdio_get:K_substdio_get:chk,rd"]
 
 def gen_params(srcdir):
     r = run([sys.executable, os.path.join(VERIF, "tools", "extract_params.py"), srcdir])
